@@ -58,6 +58,25 @@ func (t *Collection) markReclaimable(n *node, reclaimMark *node) {
 	n.next = reclaimMark
 }
 
+// unmarkReclaimable undoes markReclaimable() on the cached nodes of a
+// tree, for a mutation that failed part way and so published nothing.
+func (t *Collection) unmarkReclaimable(nloc *nodeLoc, reclaimMark *node) {
+	if nloc.isEmpty() {
+		return
+	}
+	n := nloc.Node()
+	if n == nil {
+		return
+	}
+	t.rootLock.Lock()
+	if n.next == reclaimMark {
+		n.next = nil
+	}
+	t.rootLock.Unlock()
+	t.unmarkReclaimable(&n.left, reclaimMark)
+	t.unmarkReclaimable(&n.right, reclaimMark)
+}
+
 func (t *Collection) reclaimMarkUpdate(nloc *nodeLoc,
 	oldReclaimMark, newReclaimMark *node) *node {
 	if nloc.isEmpty() {
